@@ -28,6 +28,8 @@ type Result struct {
 	Key string
 	// Notes are tolerated-but-noteworthy observations (never violations).
 	Notes []string
+	// Sub counts additional evaluations performed inside this case (grouped enumerations).
+	Sub int
 	// Engine is set when the harness itself failed (exit 2, never a VIOLATION).
 	Engine string
 }
